@@ -49,7 +49,7 @@ class NoisySc(calsim.Scenario):
 
 
 def scenario(rng, typ, n, nf, noise=None, gross=None, merr=None, plim=None, slot_c=0, slot_n=0, box=None, fgrid=None, seed_others=None, gross_f=None):
-    sc = NoisySc(rng, typ, n, n, nf, form='m', slot_c=slot_c, slot_n=slot_n, box=box)
+    sc = NoisySc(rng, typ, n, n, nf, form='m', slot_c=slot_c, slot_n=slot_n, box=box, fvec=fgrid)
     if seed_others is not None:
         sc.others = seed_others
     sc.noise, sc.gross, sc.gross_f = noise, gross, gross_f
@@ -267,8 +267,19 @@ def grids(chk, exe, rng, reps):
         B = scenario(random.Random(seed), typ, n, nf, noise=nz, merr=(f, [la(s0, s1, x) for x in f], [la(t0, t1, x) for x in f]), plim=1e-6)
         C = scenario(random.Random(seed), typ, n, nf, noise=nz, merr=(None, [s0], [t0]), plim=1e-6)
         D = scenario(random.Random(seed), typ, n, nf, noise=nz, merr=(f, [s0] * nf, [t0] * nf), plim=1e-6)
+        # one value with a (documented as unused) one-point frequency vector; one value followed by a *refused* setting (grid points
+        # too close together for the spline): both are the same model as C
+        E = scenario(random.Random(seed), typ, n, nf, noise=nz, merr=([rng.choice(f + [f[0] * 0.1, f[-1] * 7])], [s0], [t0]), plim=1e-6)
+        # (frequencies in GHz units here: the spline refuses abscissae less than 1e-4 apart)
+        fu = [x / 1e9 for x in f]
+        C2 = scenario(random.Random(seed), typ, n, nf, noise=nz, merr=(None, [s0], [t0]), plim=1e-6, fgrid=fu)
+        F = scenario(random.Random(seed), typ, n, nf, noise=nz, merr=(None, [s0], [t0]), plim=1e-6, fgrid=fu)
+        i_set = next(i for i, l in enumerate(F.lines) if l.startswith('cal new_set_m_error'))
+        gbad = [fu[0] * 0.9, fu[0] * 0.9 + 5e-5, fu[-1] * 1.1]
+        F.lines.insert(i_set + 1, 'cal new_set_m_error %d 3 F %s S %s T %s' % (F.n, ' '.join(vlib.d2h(x) for x in gbad), ' '.join(vlib.d2h(7 * s0) for _ in gbad), ' '.join(vlib.d2h(7 * t0) for _ in gbad)))
+        F.refused_at = i_set + 1
         res = []
-        for sc in (A, B, C, D):
+        for sc in (A, B, C, D, E, F, C2):
             finish(sc)
             o, rc, err = vlib.run_lines(exe, sc.lines, timeout=300)
             if rc != 0 or len(o) != len(sc.lines):
@@ -276,15 +287,27 @@ def grids(chk, exe, rng, reps):
                 return
             res.append(o)
         chk.evaluations += 1
-        for (x, y, what, sx) in ((0, 1, 'two points on a wider grid vs the same straight line on the calibration grid', A), (2, 3, 'one value vs the same value on the calibration grid', C)):
-            if not (res[x][sx.i_solve].startswith('ok') and res[y][sx.i_solve].startswith('ok')):
-                chk.violation('grid-refused', '%s %dx%d: a solve with a noise grid fails: %s / %s' % (typ, n, n, res[x][sx.i_solve][:50], res[y][sx.i_solve][:50]), sx.lines[:sx.i_solve + 1])
+        rf = res[5][F.refused_at]
+        if not rf.startswith('fail EINVAL'):
+            # (an accepted call is fine when the library can build the spline; then F is another model and is not compared)
+            chk.count('close_grid_' + ('accepted' if rf.startswith('ok') else 'other'))
+            if not rf.startswith('ok'):
+                chk.violation('grid-errno', '%s %dx%d: noise grid points 1e-9 apart are refused as %s (expected EINVAL through the error function)' % (typ, n, n, rf[:50]), F.lines[:F.refused_at + 1])
+                return
+        pairs = [(0, 1, 'two points on a wider grid vs the same straight line on the calibration grid', A, A), (2, 3, 'one value vs the same value on the calibration grid', C, D),
+                 (2, 4, 'one value vs one value with a one-point frequency vector', C, E)]
+        if rf.startswith('fail'):
+            pairs.append((6, 5, 'one value vs one value followed by a refused vnacal_new_set_m_error', C2, F))
+        for (x, y, what, sx, sy) in pairs:
+            if not (res[x][sx.i_solve].startswith('ok') and res[y][sy.i_solve].startswith('ok')):
+                bad_ = sy if res[x][sx.i_solve].startswith('ok') else sx
+                chk.violation('grid-refused', '%s %dx%d (%s): a solve with a noise model fails: %s / %s' % (typ, n, n, what, res[x][sx.i_solve][:50], res[y][sy.i_solve][:50]), bad_.lines[:bad_.i_solve + 1])
                 return
             Sx = calsim.parse_apply(res[x][sx.i_apply], n)[1]
-            Sy = calsim.parse_apply(res[y][sx.i_apply], n)[1]
+            Sy = calsim.parse_apply(res[y][sy.i_apply], n)[1]
             d = max(np.abs(p - q).max() for p, q in zip(Sx, Sy))
             if d > 1e-9:
-                chk.violation('grid', '%s %dx%d: %s give calibrations that differ by %.3e' % (typ, n, n, what, d), sx.lines[:sx.i_apply + 1])
+                chk.violation('grid', '%s %dx%d: %s give calibrations that differ by %.3e' % (typ, n, n, what, d), sy.lines[:sy.i_apply + 1])
                 return
         chk.count('grids_same')
         chk.distinct.add(('grid', typ, n, seed))
